@@ -97,6 +97,11 @@ def main():
         missing = json.loads(o.strip().splitlines()[-1])
     except Exception:
         missing = ["<suite output unparseable: %s>" % o[-300:]]
+    # utils/po::TestLibrary shells out to msgmerge (gettext); where that binary is absent the test fails on the untouched
+    # tree as well, so it says nothing about the change
+    if shutil.which("msgmerge") is None:
+        missing = [m for m in missing if m != "github.com/nyaruka/goflow/utils/po::TestLibrary"]
+        out["suite_note"] = "utils/po::TestLibrary not judged: msgmerge is not installed in this sandbox and the test fails on the untouched tree too"
     out["suite_passes"] = missing == []
     out["suite_not_passing"] = missing[:10]
     out["confirmed"] = bool(out["demo_passes_without_change"] and out["patch_applies"] and out["compiles"] and out["demo_fails_with_change"] and out["suite_passes"])
